@@ -255,6 +255,36 @@ func VerifH_c05_algebra() {
 	if dk != "b" && kb != opWrongType {
 		vSetIs(cs, "store-operand-b", "b", mb)
 	}
+	// the stored result is a set of its own: it shares no storage with an
+	// operand, and writing to it afterwards leaves the operands alone
+	if want != 0 {
+		for _, opk := range []string{"a", "b"} {
+			if opk == dk {
+				continue
+			}
+			dsk, _ := cs.ds.getStoreKey(dk)
+			osk, oex := cs.ds.getStoreKey(opk)
+			if oex && dsk != nil && osk.getSet() != nil && dsk.getSet() != nil {
+				dd, od := dsk.getSet(), osk.getSet()
+				vAssert("store-result-not-aliased-with-operand", dd != od && &dd.buckets[0] != &od.buckets[0])
+			}
+		}
+		free := -1
+		for i := range vMemberPool {
+			if want>>i&1 == 0 {
+				free = i
+			}
+		}
+		if free >= 0 {
+			vCmd(cs, "SADD", dk, vMemberPool[free])
+			if dk != "a" && ka != opWrongType {
+				vSetIs(cs, "store-then-write-dest-operand-a", "a", ma)
+			}
+			if dk != "b" && kb != opWrongType {
+				vSetIs(cs, "store-then-write-dest-operand-b", "b", mb)
+			}
+		}
+	}
 	vReach("store-empty-result-deletes-dest", want == 0 && dsel == 1 && ma != 0)
 	vReach("store-dest-is-operand", dsel == 2 && want != mb)
 }
